@@ -1866,13 +1866,14 @@ class AstEval:
     async def ast_call(self, arg):
         """Evaluate function call."""
         func = await self.aeval(arg.func)
+        # like Python, positional arguments are evaluated before keyword arguments
+        args = await self.eval_elt_list(arg.args)
         kwargs = {}
         for kw_arg in arg.keywords:
             if kw_arg.arg is None:
                 kwargs.update(await self.aeval(kw_arg.value))
             else:
                 kwargs[kw_arg.arg] = await self.aeval(kw_arg.value)
-        args = await self.eval_elt_list(arg.args)
         #
         # try to deduce function name, although this only works in simple cases
         #
